@@ -64,8 +64,8 @@ fn main() {
                 for pan in -1..(n as i128) {
                     dist(&format!("op{}", op));
                     do_case(vec![op, form, 0, n as i128, pan, 0, 0, mode]);
-                    // generate / default with zero-sized drop-counted elements
-                    if op == 3 || op == 5 {
+                    // generate with zero-sized drop-counted elements
+                    if op == 3 {
                         dist("zst_counted");
                         do_case(vec![op, form, 6, n as i128, pan, 0, 0, mode]);
                     }
